@@ -141,14 +141,23 @@ def run(ctx):
                 construct='return XX_psd')
 
     def accum(II):
-        es = [e for e in II.events if e.kind == 'store' and e.data.get('name') == 'XX_psd' and e.loops]
+        # the per-polarisation accumulation (inside a loop, or unrolled over the literal polarisation list)
+        es = [e for e in II.events if e.kind == 'store' and e.data.get('name') == 'XX_psd' and e.data.get('aug') == 'Add']
         return es
     a, ar = accum(I), accum(IR)
     ctx.require(a and ar, 'get_pfb_waterfall: accumulation into XX_psd inside the polarisation loop not found')
-    ctx.formula('AGREE', 'per polarisation: |fftshift(fft(fine axis)/sqrt(F))|^2 is accumulated', pw, a[-1].data['value'],
-                ar[-1].data['value'], node=a[-1].node)
-    init = [e for e in I.events if e.kind == 'store' and e.data.get('name') == 'XX_psd' and not e.loops]
-    initr = [e for e in IR.events if e.kind == 'store' and e.data.get('name') == 'XX_psd' and not e.loops]
+    if len(a) != len(ar):
+        ctx.ob('AGREE', 'one accumulation per polarisation, as in the reference', pw, False,
+               {'code': [(e.text(), pretty(e.cond())[:80]) for e in a], 'reference': [(e.text(), pretty(e.cond())[:80]) for e in ar]},
+               node=a[-1].node, construct='XX_psd += ... [count]')
+    else:
+        for k, (x, y) in enumerate(zip(a, ar)):
+            ctx.formula('AGREE', f'accumulation #{k}: |fftshift(fft(fine axis)/sqrt(F))|^2 of that polarisation is added', pw,
+                        x.data['rhs'], y.data['rhs'], node=x.node, construct=x.text() + f' [#{k} value]')
+            ctx.formula('AGREE', f'accumulation #{k}: performed for the same polarisations as the reference', pw, x.cond(), y.cond(),
+                        node=x.node, construct=x.text() + f' [#{k} guard]')
+    init = [e for e in I.events if e.kind == 'store' and e.data.get('name') == 'XX_psd' and e.data.get('aug') is None]
+    initr = [e for e in IR.events if e.kind == 'store' and e.data.get('name') == 'XX_psd' and e.data.get('aug') is None]
     ctx.formula('AGREE', 'accumulator shape == (chan, time//F, F)', pw, init[0].data['value'], initr[0].data['value'],
                 node=init[0].node)
 
